@@ -626,6 +626,9 @@ func Select(arr, idx *Term) *Term {
 		}
 		break
 	}
+	if arr.op == OVar && strings.HasPrefix(arr.name, "zeroarr!") {
+		return ConstI(0) // a zero-initialised flattened array
+	}
 	return TS.intern(OSelect, SInt, nil, "", arr, idx)
 }
 
